@@ -1554,9 +1554,7 @@ class SArr:
 
     def squeeze(self, axis=None):
         from . import npshim
-        if axis is not None:
-            raise Unsupported('squeeze(axis=...)')
-        return npshim.squeeze(self)
+        return npshim.squeeze(self, axis=axis)
 
     def flatten(self, order='C'):
         from . import npshim
